@@ -84,6 +84,24 @@ Theorem C06_final_dump_with_periodic_dumps :
     /\ st = prof_run reg pst0 stream.
 Proof. exact final_dump_with_periodic_dumps. Qed.
 
+(* FINDING (the -i statement above does NOT carry over to cProfile, i.e. kernprof -i N
+   without -l, also with -b): there the periodic dump itself switches the profiler off
+   (cProfile's dump_stats -> create_stats -> self.disable()), faithfully modelled by
+   kern_run_ticks_c.  A concrete run: the program executes all its events and returns,
+   two dumps are made, and the file left behind holds 0 calls of a function that was
+   called once after the periodic dump - whereas the -l model of the same run with the
+   same periodic dump holds that call. *)
+Theorem C06_cprofile_periodic_dump_refuted :
+  exists (stream : list pev) (kd : kind) (reg : Z -> bool) (out : ostate) (tick : nat) (ctx : bool)
+         (outfile : string) (late : Z),
+    closed stream = true
+    /\ program_events (fst (fst (kern_run_ticks_c stream kd reg out [tick] ctx outfile))) = stream
+    /\ count_eff is_dump (fst (fst (kern_run_ticks_c stream kd reg out [tick] ctx outfile))) = 2
+    /\ count_call reg stream late = 1
+    /\ dumped_calls (kern_run_ticks_c stream kd reg out [tick] ctx outfile) outfile late = Some 0
+    /\ dumped_calls (kern_run_ticks stream kd reg out [tick] ctx outfile) outfile late = Some 1.
+Proof. exact cprofile_periodic_dump_refuted. Qed.
+
 (* The profiler is only switched on inside the windows that the wrappers of the
    decorated functions open around every activation segment (a call, every
    resumption of a generator, and the resumption that delivers close() / throw()
